@@ -52,7 +52,7 @@ var c14Specs = map[string][]termSpec{
 	},
 	"pkg/sys": {
 		{"Args", []string{"var:os.Args"}, "Args = os.Args"},
-		{"ReadFile", []string{"(conv[string](#0(os.ReadFile(p0))), (#1(os.ReadFile(p0)) == nil))"}, "ReadFile = (content, err == nil)"},
+		{"ReadFile", []string{"seq[assign($0 := os.ReadFile(p0))] (conv[string](#0($0)), (#1($0) == nil))", "(conv[string](#0(os.ReadFile(p0))), (#1(os.ReadFile(p0)) == nil))"}, "ReadFile = (content, err == nil)"},
 		{"WriteFile", []string{"(os.WriteFile(p0, conv[[]byte](p1), <_>) == nil)"}, "WriteFile = (err == nil) of os.WriteFile(path, []byte(content), _)"},
 	},
 	"pkg/dict": {
